@@ -149,5 +149,18 @@ func H_C01_Step() {
 	} else {
 		vCover("c01.other")
 	}
+	// the representation invariant assumed of the pre-state is re-established (this is what makes the
+	// one-step argument cover every delivery order)
+	for name, ns := range m.nodeMap {
+		_, timer := m.nodeTimers[name]
+		if name == vSelf {
+			vAssert(!timer, "c01.inv.no-timer-for-self")
+			vAssert(ns.State == StateAlive, "c01.inv.self-alive")
+			vAssert(ns.Incarnation <= m.incarnation.Load(), "c01.inv.self-inc-le-counter")
+		} else {
+			vAssert((ns.State == StateSuspect) == timer, "c01.inv.suspect-iff-timer")
+		}
+	}
+	vAssert(len(m.nodes) == len(m.nodeMap) && int(m.numNodes.Load()) == len(m.nodes), "c01.inv.table-consistent")
 	_ = net.IP{}
 }
